@@ -253,15 +253,12 @@ def codecs(ctx, facts):
     if tb is None or fb is None:
         ctx.missing("FIELDS-codec", "HybridConversionInfo::{to_bytes, from_bytes}")
     else:
-        from vlib import bounds
-        dbg = bounds.debug_only_blocks(tb)
+        from rules.C10 import buffer_writes
         seq = []
-        for bb, t in sorted(tb.calls(), key=lambda x: x[0]):
-            if bb in dbg:
-                continue
+        wr = buffer_writes(facts, tb)
+        for wb_, bb, t, e in wr:
             fn = F.callee(t)[0] or ""
             if re.search(r"Vec::<T, A>::(push|extend_from_slice)$", fn):
-                e = flow.expr_of(tb, t["args"][-1])
                 names = [x for x in flow.field_names_in(e)]
                 if names:
                     seq.append(names[0])
@@ -287,7 +284,7 @@ def codecs(ctx, facts):
                         rd[nm] = e[:60]
         okr = rd.get("conversion_site_domain") == "prefix" and rd.get("timestamp") == (1, 9) and rd.get("epsilon") == (9, 17) and rd.get("sensitivity") == (17, 25)
         ctx.ob("FIELDS-codec", "conversion:from_bytes-layout", okr, f"reads {rd}" if okr else f"from_bytes layout {rd} does not mirror to_bytes (key_id@0, timestamp@1..9, epsilon@9..17, sensitivity@17..25 after the delimiter)", site_of(fb))
-        be = [F.callee(t)[0] or "" for _, t in tb.calls()] + [F.callee(t)[0] or "" for _, t in fb.calls()]
+        be = [F.callee(t)[0] or "" for wb2_ in {id(x): x for x in [tb] + [y[0] for y in wr]}.values() for _, t in wb2_.calls()] + [F.callee(t)[0] or "" for _, t in fb.calls()]
         ctx.ob("FIELDS-codec", "conversion:same-endianness", sum(1 for x in be if x.endswith("to_be_bytes")) == 3 and sum(1 for x in be if x.endswith("from_be_bytes")) == 3, "three big-endian fields written and read")
     vb = next((x for p, x in facts.bodies.items() if re.search(r"<std::vec::Vec<T> as query::executor::Result>::to_bytes$", p)), None)
     if vb is None:
